@@ -3,6 +3,7 @@
 from __future__ import annotations
 
 import ast
+import re
 
 import sympy as sp
 
@@ -51,6 +52,7 @@ def run(rep: core.Report):
     _r14f(rep)
     _r14g(rep)
     _r14h(rep)
+    _r14i(rep)
 
 
 # ---------------------------------------------------------------------------
@@ -618,6 +620,102 @@ def _r14e(rep):
 # ---------------------------------------------------------------------------
 
 
+
+def _r14i(rep):
+    """Files contain the numbers of the results: between the stored eigenvector array and the formatted / stored value
+    only indexing, transposition, reshaping and the split into real and imaginary part may happen."""
+    rep.rule("R14i", "writers copy eigenvectors: in every write_* function the value that is formatted or handed to the hdf5 writer is an element of the stored eigenvector array reached by indexing / .T / reshape / iteration / .real / .imag only; conjugation, negation, absolute value or arithmetic on the way is a report; with the element spelling x[q, 3*atom + xyz, band] the band index is the variable that enumerates the frequencies written next to it", 5)
+    n_inst = 0
+    for rel in ("phonopy/phonon/mesh.py", "phonopy/phonon/qpoints.py", "phonopy/phonon/band_structure.py"):
+        tree = core.parse(rel)
+        for fn in [x for x in ast.walk(tree) if isinstance(x, ast.FunctionDef) and "write" in x.name]:
+            if "eigenvectors" not in core.src(fn):
+                continue
+            tainted = {"eigenvectors"} if any(a.arg == "eigenvectors" for a in fn.args.args) else set()
+
+            def is_src(e):
+                return (isinstance(e, ast.Attribute) and e.attr in ("_eigenvectors", "eigenvectors")) or (isinstance(e, ast.Name) and e.id in tainted)
+
+            def derived(e):
+                return any(is_src(x) for x in ast.walk(e))
+
+            changed = True
+            while changed:
+                changed = False
+                for st in ast.walk(fn):
+                    tg = []
+                    if isinstance(st, ast.Assign) and derived(st.value):
+                        tg = [t for t in st.targets]
+                    elif isinstance(st, (ast.For, ast.comprehension)) and derived(st.iter):
+                        tg = [st.target]
+                    for t in tg:
+                        for nm in ast.walk(t):
+                            if isinstance(nm, ast.Name) and nm.id not in tainted:
+                                # enumerate(...) counters are plain integers
+                                it = getattr(st, "iter", None)
+                                if isinstance(it, ast.Call) and core.src(it.func) == "enumerate" and isinstance(t, ast.Tuple) and nm is t.elts[0]:
+                                    continue
+                                tainted.add(nm.id)
+                                changed = True
+            bad = []
+            reads = 0
+            for x in ast.walk(fn):
+                if isinstance(x, ast.Attribute) and x.attr in ("real", "imag") and derived(x.value):
+                    reads += 1
+                if isinstance(x, ast.Call) and core.src(x.func).endswith("create_dataset") and any(derived(k.value) for k in x.keywords if k.arg == "data"):
+                    reads += 1
+                if isinstance(x, ast.Call) and isinstance(x.func, ast.Attribute) and x.func.attr in ("conj", "conjugate") and derived(x.func.value):
+                    bad.append((x, "complex conjugation"))
+                if isinstance(x, ast.Call) and core.src(x.func) in ("np.conj", "np.conjugate", "np.abs", "abs", "np.negative") and x.args and derived(x.args[0]):
+                    bad.append((x, core.src(x.func)))
+                if isinstance(x, ast.UnaryOp) and isinstance(x.op, ast.USub) and derived(x.operand):
+                    bad.append((x, "negation"))
+                if isinstance(x, ast.BinOp) and not (isinstance(x.op, ast.Mod) and isinstance(x.left, ast.Constant)) and not (isinstance(x.op, ast.Mod) and isinstance(x.left, (ast.Constant, ast.BinOp, ast.JoinedStr))) and (derived(x.left) or derived(x.right)):
+                    # index arithmetic inside a subscript of the array is not arithmetic on its values
+                    par = getattr(x, "_parent", None)
+                    inside_index = False
+                    cur = x
+                    while par is not None and par is not fn:
+                        if isinstance(par, ast.Subscript) and cur is par.slice:
+                            inside_index = True
+                            break
+                        cur, par = par, getattr(par, "_parent", None)
+                    if not inside_index and not isinstance(x.left, ast.Constant):
+                        bad.append((x, "arithmetic"))
+            if not reads:
+                continue
+            n_inst += 1
+            rep.instance("R14i", rel, core.qualname_of(fn), f"{reads} eigenvector values written; derived names {sorted(tainted)}", not bad,
+                         f"{bad[0][1] if bad else ''} is applied to the eigenvectors on their way into the file ('{core.norm(core.src(bad[0][0]), 70) if bad else ''}'): the file holds eigenvectors of another matrix (the conjugates are eigenvectors of D(-q)) wherever the dynamical matrix is complex, while the in-memory results and the other writers do not", line=(bad[0][0].lineno if bad else fn.lineno))
+            # element spelling: the band index
+            for x in ast.walk(fn):
+                if isinstance(x, ast.Attribute) and x.attr == "real" and isinstance(x.value, ast.Subscript):
+                    sub = x.value
+                    idx = sub.slice.elts if isinstance(sub.slice, ast.Tuple) else [sub.slice]
+                    if len(idx) >= 2 and {type(idx[-1]), type(idx[-2])} == {ast.Name, ast.BinOp}:
+                        if not isinstance(idx[-1], ast.Name):
+                            n_inst += 1
+                            rep.instance("R14i", rel, core.qualname_of(fn), f"element {core.src(sub)}", False, "the band index is not the last index of the eigenvector array (eigenvectors are the columns of the matrix stored per q-point)", line=x.lineno)
+                            continue
+                        band = idx[-1].id
+                        loops = []
+                        cur = getattr(x, "_parent", None)
+                        while cur is not None and cur is not fn:
+                            if isinstance(cur, ast.For) and band in {n_.id for n_ in ast.walk(cur.target) if isinstance(n_, ast.Name)}:
+                                if isinstance(cur.target, ast.Tuple) and isinstance(cur.iter, ast.Call) and core.src(cur.iter.func) == "enumerate" and isinstance(cur.target.elts[0], ast.Name) and cur.target.elts[0].id == band:
+                                    loops.append(cur)
+                                break
+                            cur = getattr(cur, "_parent", None)
+                        ok_b = len(loops) == 1 and "freq" in core.src(loops[0].iter)
+                        mid = core.src(idx[-2]).replace(" ", "")
+                        ok_m = bool(re.fullmatch(r"(\w+)\*3\+(\w+)|3\*(\w+)\+(\w+)", mid))
+                        n_inst += 1
+                        rep.instance("R14i", rel, core.qualname_of(fn), f"element {core.src(sub)}: band index {band}, row {mid}", ok_b and ok_m,
+                                     "the eigenvector element written for (band, atom, xyz) is not x[..., 3*atom + xyz, band] with the band index of the frequency written next to it", line=x.lineno)
+    if n_inst < 5:
+        raise AnalysisError(f"R14i: only {n_inst} eigenvector writer sites found (6 confirmed by reading)")
+
+
 def selftest():
     V = []
     b = lambda name, file, old, new, rule, expect="", **kw: V.append(dict(name=name, kind="break", file=file, old=old, new=new, rule=rule, expect=expect, **kw))
@@ -638,4 +736,6 @@ def selftest():
     n("qpoints: allocate eigenvectors with empty_like", "phonopy/phonon/qpoints.py", "                eigenvectors = np.zeros_like(dynmat)\n", "                eigenvectors = np.empty_like(dynmat)\n")
     b("qpoints: share buffer under the wrong flag", "phonopy/phonon/qpoints.py", "            if self._with_dynamical_matrices:\n                # dynmat[i]", "            if not self._with_dynamical_matrices:\n                # dynmat[i]", "R14a", "dynmat")
     n("mesh: conversion written with np.abs and reordered", "phonopy/phonon/mesh.py", "np.sqrt(abs(eigenvalues)) * np.sign(eigenvalues),", "np.sign(eigenvalues) * np.sqrt(np.abs(eigenvalues)),", nth=0)
+    b("mesh.yaml holds conjugated eigenvectors", "phonopy/phonon/mesh.py", "                                    self._eigenvectors[i, k * 3 + ll, j].imag,", "                                    self._eigenvectors[i, k * 3 + ll, j].conj().imag,", "R14i", "write_yaml")
+    b("qpoints.yaml swaps band and row index", "phonopy/phonon/qpoints.py", "                                    self._eigenvectors[i][k * 3 + ll, j].real,", "                                    self._eigenvectors[i][j, k * 3 + ll].real,", "R14i", "element")
     return V
